@@ -1301,6 +1301,11 @@ func C13Gen(r *Run) {
 	for _, k := range []int{99, 100, 101, 102, 103} {
 		g.dual(k+60, k%4, fmt.Sprintf("stall%d", k), 4)
 	}
+	// 6c. a backlog beyond the queue's first allocation (1000 slots) and its doublings, building up
+	// AFTER the first element has been taken out (the pending list has moved on in its storage)
+	for _, k := range []int{1100, 2100, 4200} {
+		g.queue(k+300, fmt.Sprintf("stall%d", k), 4)
+	}
 	// 7. seeded random cases
 	nrand := 150
 	if thorough {
